@@ -10,7 +10,32 @@
 /// C12: takes a `let mut` name by mutable reference (no effect; the borrow is the point)
 pub fn mutate<T>(_v: &mut T) {}
 /// `futures` under another path: the value the C16 programs give to `futures_crate_path`
-pub use futures as fx;
+pub use futures as fut;
+/// what the generated programs pass as `futures_crate_path(::rt::fx)`: all of `futures`, but its `join!` / `try_join!` log that
+/// they were reached through this path (event `fxjoin`), so a macro call takes them from here iff it carries the option
+pub mod fx {
+    pub use crate::__fx_join as join;
+    pub use crate::__fx_try_join as try_join;
+    pub use futures::*;
+}
+#[macro_export]
+macro_rules! __fx_join {
+    ($($f:expr),+ $(,)?) => {{
+        $crate::fx_ev($crate::count_exprs!($($f),+));
+        $crate::fut::join!($($f),+)
+    }};
+}
+#[macro_export]
+macro_rules! __fx_try_join {
+    ($($f:expr),+ $(,)?) => {{
+        $crate::fx_ev($crate::count_exprs!($($f),+));
+        $crate::fut::try_join!($($f),+)
+    }};
+}
+pub fn fx_ev(n: i64) {
+    let _q = Quiet::new();
+    log(json!({"ev":"fxjoin","n":n}));
+}
 use serde_json::{json, Map, Value};
 use std::alloc::{GlobalAlloc, Layout, System};
 use std::cell::Cell;
@@ -850,14 +875,14 @@ macro_rules! tjm {
 macro_rules! aj {
     ($($f:expr),+) => {{
         $crate::joiner_ev($crate::count_exprs!($($f),+), false);
-        $crate::fx::join!($($f),+)
+        $crate::fut::join!($($f),+)
     }};
 }
 #[macro_export]
 macro_rules! atj {
     ($($f:expr),+) => {{
         $crate::joiner_ev($crate::count_exprs!($($f),+), false);
-        $crate::fx::try_join!($($f),+)
+        $crate::fut::try_join!($($f),+)
     }};
 }
 /// async lazy joiner: branches arrive as `move || future`
@@ -865,14 +890,14 @@ macro_rules! atj {
 macro_rules! alj {
     ($($f:expr),+) => {{
         $crate::joiner_ev($crate::count_exprs!($($f),+), true);
-        $crate::fx::join!($(($f)()),+)
+        $crate::fut::join!($(($f)()),+)
     }};
 }
 #[macro_export]
 macro_rules! altj {
     ($($f:expr),+) => {{
         $crate::joiner_ev($crate::count_exprs!($($f),+), true);
-        $crate::fx::try_join!($(($f)()),+)
+        $crate::fut::try_join!($(($f)()),+)
     }};
 }
 
